@@ -26,17 +26,27 @@ package syncer
 
 //@ func RedisOutput.parseAofCommand
 //@   arith int
-//@   properties C07 C01 C09 C12
+//@   properties C07 C01 C09 C12 C02
 //@   nopanic
-//@   replay syncer_parseAofCommand syncer_dbFilterBrackets syncer_dbFilterExecDropped syncer_zeroArgPublish
+//@   replay syncer_parseAofCommand syncer_dbFilterBrackets syncer_dbFilterExecDropped syncer_zeroArgPublish syncer_resumeInFilteredDb
 //@   ghost var pos mathint
 //@   ghost var unread mathint
 //@   ghost var cur mathint = startOffset
 //@   ghost var sentHigh mathint = startOffset
 //@   requires nonnil: ro != nil && reader != nil && ro.outFilter != nil && filter.filterWF(ro.outFilter)
 //@   modifies heap, pos, unread
+//   cmdStart  where the command of this iteration begins (the end of the previous one)
+//   out       1 while the source is in a configured-out database
+//   outFrom   where it switched into that database
+//@   ghost var cmdStart mathint = startOffset
+//@   ghost var out mathint = 0
+//@   ghost var outFrom mathint = 0
+//@   set cmdStart = cur after store incrOffset
 //@   set cur = startOffset + incrOffset after store incrOffset
-//@   assert at send sendBuf: command_end: sent.Offset == cur
+//@   set outFrom = ite(result && out == 0, cmdStart, outFrom) after call FilterDb
+//@   set out = ite(result, 1, 0) after call FilterDb
+//@   assert at send sendBuf: command_end: out == 0 ==> sent.Offset == cur
+//@   assert at send sendBuf: a_position_inside_a_configured_out_database_is_never_a_resume_point [C02 C01]: out == 1 ==> sent.Offset == outFrom
 //@   assert at send sendBuf: monotone: sent.Offset >= sentHigh
 //@   assert at send sendBuf: db_tag [C01]: sent.Cmd == "select" || sent.Db == currentDB
 //@   assert at send sendBuf: select_names_current_db [C01]: sent.Cmd == "select" && currentDB != 0 - 1 ==> sent.Db == currentDB
@@ -52,6 +62,10 @@ package syncer
 //@   loop 1:
 //@     invariant decoder: decoder != nil && decoder.r != nil && decoder.offset >= 0
 //@     invariant order: sentHigh <= cur && cur <= startOffset + decoder.offset
+//@     invariant previous_end: prevEnd == cur
+//@     invariant out_iff_bypass: (bypass <==> out == 1) && (out == 0 || out == 1)
+//@     invariant switch_point: bypass ==> bypassedFrom == outFrom
+//@     invariant switch_point_order: bypass ==> outFrom <= cur && sentHigh <= outFrom
 //@     invariant filter: ro.outFilter != nil && filter.filterWF(ro.outFilter)
 //@   loop 2:
 //@     invariant index: 0 - 1 <= rangeindex
